@@ -6,14 +6,19 @@ import (
 	"errors"
 	"fmt"
 	"math/rand"
+	"net"
+	"runtime"
 	"strings"
+	"sync"
 	"testing"
+	"time"
 
 	"github.com/emersion/go-message/textproto"
 	"github.com/emersion/go-msgauth/authres"
 	"github.com/emersion/go-smtp"
 	"github.com/foxcpp/go-mockdns"
 	"github.com/foxcpp/maddy/framework/buffer"
+	"github.com/foxcpp/maddy/framework/config"
 	"github.com/foxcpp/maddy/framework/exterrors"
 	"github.com/foxcpp/maddy/framework/log"
 	"github.com/foxcpp/maddy/framework/module"
@@ -27,6 +32,235 @@ func c07SeedWorks() bool {
 	a, b := rand.Int31n(100), rand.Int31n(1000)
 	rand.Seed(12345)
 	return a == rand.Int31n(100) && b == rand.Int31n(1000)
+}
+
+// ---- virtual time for the asynchronous policy lookup -------------------------------------------
+//
+// Stages: 0 = the moment the lookup is started, k = 1..3 = the body checks of block k (global,
+// source, recipient) are running, 4 = all body checks are done (Apply is waiting).  c07Clock
+// holds one gate per stage; the body check of block k opens the gates up to k when it is entered,
+// the gates of stage 4 are opened a moment after the last block's check was entered (or, without
+// any check, after Body was called).  Nothing the harness asserts depends on how long that moment
+// is: the answer published in the DNS is the same whenever it arrives.
+
+const c07Stages = 5
+
+type c07Clock struct {
+	mu    sync.Mutex
+	gates [c07Stages]chan struct{}
+	open  int // gates [0, open) are open
+}
+
+func newC07Clock() *c07Clock {
+	k := &c07Clock{}
+	for i := range k.gates {
+		k.gates[i] = make(chan struct{})
+	}
+	k.advance(0)
+	return k
+}
+
+// advance opens the gates of the stages up to and including stage.
+func (k *c07Clock) advance(stage int) {
+	k.mu.Lock()
+	defer k.mu.Unlock()
+	for k.open <= stage && k.open < c07Stages {
+		close(k.gates[k.open])
+		k.open++
+	}
+}
+
+func (k *c07Clock) late() {
+	go func() {
+		time.Sleep(100 * time.Microsecond)
+		k.advance(c07Stages - 1)
+	}()
+}
+
+// c07Resolver answers like the scripted mockdns resolver of the case, but only when the stage of
+// the asked name has come, and - as net.Resolver does - gives up with the context's error when
+// the context of the lookup is cancelled before the answer has arrived.
+type c07Resolver struct {
+	*mockdns.Resolver
+	clock *c07Clock
+	c     *vdmarc.Case
+
+	mu      sync.Mutex
+	aborted int
+	started int
+	pending map[int]int // lookups in flight -> their stage
+}
+
+// settle lets the lookups whose answers are due by `stage` come to their end (and a follow-up
+// query of the same lookup goroutine start): "the answer arrives while the checks of block k run"
+// then means that it has arrived when those checks return.  Pacing only - nothing is asserted about it.
+func (r *c07Resolver) settle(stage int) {
+	last, stable := -1, 0
+	for i := 0; i < 500 && stable < 2; i++ {
+		for t := time.Now().Add(15 * time.Microsecond); time.Now().Before(t); {
+			runtime.Gosched()
+		}
+		r.mu.Lock()
+		busy := false
+		for _, s := range r.pending {
+			if s <= stage {
+				busy = true
+			}
+		}
+		st := r.started
+		r.mu.Unlock()
+		if busy || st != last {
+			last, stable = st, 0
+			continue
+		}
+		stable++
+	}
+}
+
+func (r *c07Resolver) LookupTXT(ctx context.Context, name string) ([]string, error) {
+	n := strings.TrimSuffix(strings.TrimPrefix(strings.ToLower(name), "_dmarc."), ".")
+	stage := r.c.ArriveAt(n)
+	if stage < 0 {
+		stage = 0
+	}
+	if stage >= c07Stages {
+		stage = c07Stages - 1
+	}
+	r.mu.Lock()
+	r.started++
+	id := r.started
+	if r.pending == nil {
+		r.pending = map[int]int{}
+	}
+	r.pending[id] = stage
+	r.mu.Unlock()
+	defer func() {
+		r.mu.Lock()
+		delete(r.pending, id)
+		r.mu.Unlock()
+	}()
+	select {
+	case <-r.clock.gates[stage]:
+	case <-ctx.Done():
+	}
+	// a context cancelled before the answer arrived: no answer
+	if err := ctx.Err(); err != nil {
+		r.mu.Lock()
+		r.aborted++
+		r.mu.Unlock()
+		if errors.Is(err, context.DeadlineExceeded) {
+			return nil, &net.DNSError{Err: "i/o timeout", Name: name, IsTimeout: true}
+		}
+		return nil, &net.DNSError{Err: "operation was canceled", Name: name}
+	}
+	return r.Resolver.LookupTXT(ctx, name)
+}
+
+// c07Check is a check whose body stage reports a fixed result and tells the clock that its block
+// has been reached.
+type c07Check struct {
+	name  string
+	res   module.CheckResult
+	enter func()
+}
+
+func (c *c07Check) Init(*config.Map) error { return nil }
+func (c *c07Check) Name() string           { return "c07_check" }
+func (c *c07Check) InstanceName() string   { return c.name }
+func (c *c07Check) CheckStateForMsg(ctx context.Context, msgMeta *module.MsgMetadata) (module.CheckState, error) {
+	return c, nil
+}
+func (c *c07Check) CheckConnection(ctx context.Context) module.CheckResult { return module.CheckResult{} }
+func (c *c07Check) CheckSender(ctx context.Context, from string) module.CheckResult {
+	return module.CheckResult{}
+}
+func (c *c07Check) CheckRcpt(ctx context.Context, to string) module.CheckResult {
+	return module.CheckResult{}
+}
+func (c *c07Check) CheckBody(ctx context.Context, header textproto.Header, body buffer.Buffer) module.CheckResult {
+	if c.enter != nil {
+		c.enter()
+	}
+	return c.res
+}
+func (c *c07Check) Close() error { return nil }
+
+type c07Status struct {
+	mu  sync.Mutex
+	err error
+}
+
+func (s *c07Status) SetStatus(rcptTo string, err error) {
+	s.mu.Lock()
+	defer s.mu.Unlock()
+	if err != nil && s.err == nil {
+		s.err = err
+	}
+}
+
+// c07TimedPipeline builds the pipeline of a case with a timing: up to three check blocks, each with
+// one check reporting its share of the authentication results, the quarantining check in block
+// QBlock, the resolver on virtual time.
+func c07TimedPipeline(c *vdmarc.Case, tgt *testutils.Target) (*MsgPipeline, *c07Clock, *c07Resolver, bool) {
+	all := c.AuthResults()
+	clock := newC07Clock()
+	res := &c07Resolver{Resolver: &mockdns.Resolver{Zones: c.MockZones()}, clock: clock, c: c}
+	blocks := [3][]module.Check{}
+	last, first, pos := -1, -1, 0
+	for k := 0; k < 3 && k < len(c.Blocks); k++ {
+		if c.Blocks[k] < 0 {
+			continue
+		}
+		if first < 0 {
+			first = k
+		}
+		last = k
+	}
+	for k := 0; k < 3 && k < len(c.Blocks); k++ {
+		n := c.Blocks[k]
+		if n < 0 {
+			continue
+		}
+		if pos+n > len(all) {
+			return nil, nil, nil, false
+		}
+		k := k
+		chk := &c07Check{name: fmt.Sprintf("block%d", k), res: module.CheckResult{AuthResult: all[pos : pos+n]}}
+		chk.enter = func() {
+			clock.advance(k + 1)
+			res.settle(k + 1)
+			if k == last {
+				clock.late()
+			}
+		}
+		pos += n
+		blocks[k] = append(blocks[k], chk)
+	}
+	if pos != len(all) || first < 0 {
+		return nil, nil, nil, false
+	}
+	if c.PriorQ {
+		qb := c.QBlock
+		if qb < 0 || qb > 2 || len(blocks[qb]) == 0 {
+			qb = first
+		}
+		blocks[qb] = append(blocks[qb], &c07Check{name: "flagger", res: module.CheckResult{Quarantine: true, Reason: errors.New("flagged by an earlier check")}})
+	}
+	p := &MsgPipeline{
+		msgpipelineCfg: msgpipelineCfg{
+			globalChecks: blocks[0],
+			perSource:    map[string]sourceBlock{},
+			defaultSource: sourceBlock{
+				checks:      blocks[1],
+				perRcpt:     map[string]*rcptBlock{},
+				defaultRcpt: &rcptBlock{checks: blocks[2], targets: []module.DeliveryTarget{tgt}},
+			},
+			doDMARC: true,
+		},
+		Log:      log.Logger{Out: log.NopOutput{}},
+		Resolver: res,
+	}
+	return p, clock, res, true
 }
 
 // One case through the REAL pipeline: a check reports the SPF/DKIM results (and, for priorQ, another
@@ -50,22 +284,36 @@ func c07Reply(out *vh.Out, c *vdmarc.Case, seedOK bool) {
 	op := c.Op("reply", vals, out)
 
 	tgt := testutils.Target{}
-	checks := []module.Check{&testutils.Check{BodyRes: module.CheckResult{AuthResult: c.AuthResults()}}}
-	if c.PriorQ {
-		checks = append(checks, &testutils.Check{InstName: "flagger", BodyRes: module.CheckResult{Quarantine: true, Reason: errors.New("flagged by an earlier check")}})
-	}
-	p := MsgPipeline{
-		msgpipelineCfg: msgpipelineCfg{
-			globalChecks: checks,
-			perSource:    map[string]sourceBlock{},
-			defaultSource: sourceBlock{
-				perRcpt:     map[string]*rcptBlock{},
-				defaultRcpt: &rcptBlock{targets: []module.DeliveryTarget{&tgt}},
+	var p *MsgPipeline
+	var clock *c07Clock
+	var timedRes *c07Resolver
+	if c.Blocks != nil {
+		var ok bool
+		p, clock, timedRes, ok = c07TimedPipeline(c, &tgt)
+		if !ok {
+			out.Note("ill-formed timing in op: " + op)
+			return
+		}
+		// whatever happens, every answer arrives in the end
+		defer clock.advance(c07Stages - 1)
+	} else {
+		checks := []module.Check{&testutils.Check{BodyRes: module.CheckResult{AuthResult: c.AuthResults()}}}
+		if c.PriorQ {
+			checks = append(checks, &testutils.Check{InstName: "flagger", BodyRes: module.CheckResult{Quarantine: true, Reason: errors.New("flagged by an earlier check")}})
+		}
+		p = &MsgPipeline{
+			msgpipelineCfg: msgpipelineCfg{
+				globalChecks: checks,
+				perSource:    map[string]sourceBlock{},
+				defaultSource: sourceBlock{
+					perRcpt:     map[string]*rcptBlock{},
+					defaultRcpt: &rcptBlock{targets: []module.DeliveryTarget{&tgt}},
+				},
+				doDMARC: true,
 			},
-			doDMARC: true,
-		},
-		Log:      log.Logger{Out: log.NopOutput{}},
-		Resolver: &mockdns.Resolver{Zones: c.MockZones()},
+			Log:      log.Logger{Out: log.NopOutput{}},
+			Resolver: &mockdns.Resolver{Zones: c.MockZones()},
+		}
 	}
 	ctx := context.Background()
 	meta := module.MsgMetadata{DontTraceSender: true, ID: "c07"}
@@ -84,7 +332,23 @@ func c07Reply(out *vh.Out, c *vdmarc.Case, seedOK bool) {
 		if seedOK {
 			rand.Seed(c.Seed)
 		}
-		if err := d.Body(ctx, hdr, buffer.MemoryBuffer{Slice: []byte("foobar\r\n")}); err != nil {
+		body := buffer.MemoryBuffer{Slice: []byte("foobar\r\n")}
+		if c.NonAtomic {
+			// the LMTP way: per-recipient statuses
+			pd, ok := d.(module.PartialDelivery)
+			if !ok {
+				d.Abort(ctx)
+				bodyErr = errors.New("pipeline delivery without BodyNonAtomic")
+				return
+			}
+			sc := &c07Status{}
+			pd.BodyNonAtomic(ctx, sc, hdr, body)
+			if sc.err != nil {
+				d.Abort(ctx)
+				bodyErr = sc.err
+				return
+			}
+		} else if err := d.Body(ctx, hdr, body); err != nil {
 			d.Abort(ctx)
 			bodyErr = err
 			return
@@ -172,6 +436,29 @@ func c07Reply(out *vh.Out, c *vdmarc.Case, seedOK bool) {
 		out.Violation("C07/recorded-verdict-wrong", op, fmt.Sprintf("Authentication-Results says dmarc=%s; expected pass=%v: %s", verdict, e.Pass, e.Why))
 	}
 	out.Stat("reply." + strings.ReplaceAll(obs, " ", "_"))
+	if c.Blocks != nil {
+		nb, maxStage := 0, 0
+		for _, n := range c.Blocks {
+			if n >= 0 {
+				nb++
+			}
+		}
+		for _, n := range c.Names {
+			if s := c.ArriveAt(n); s > maxStage {
+				maxStage = s
+			}
+		}
+		out.Stat(fmt.Sprintf("reply.timed.blocks.%d", nb))
+		if c.NonAtomic {
+			out.Stat("reply.timed.body-non-atomic")
+		}
+		out.Stat(fmt.Sprintf("reply.timed.last-answer-at-stage.%d", maxStage))
+		timedRes.mu.Lock()
+		if timedRes.aborted > 0 {
+			out.Stat("reply.timed.lookup-aborted-by-context")
+		}
+		timedRes.mu.Unlock()
+	}
 	if e.CheckFate {
 		out.Stat("reply.oracle." + e.Fate)
 	}
@@ -195,8 +482,16 @@ func TestVerifC07Reply(t *testing.T) {
 	for _, c := range vdmarc.Corpus() {
 		c07Reply(out, c, seedOK)
 	}
+	for _, c := range vdmarc.TimedCorpus() {
+		c07Reply(out, c, seedOK)
+	}
 	n := vh.N(20000) / 4
 	for i := 0; i < n; i++ {
-		c07Reply(out, vdmarc.Random(r), seedOK)
+		c := vdmarc.Random(r)
+		if i%2 == 1 {
+			// several check blocks, the resolver on virtual time
+			vdmarc.AddTiming(r, c)
+		}
+		c07Reply(out, c, seedOK)
 	}
 }
